@@ -372,7 +372,7 @@ func init() {
 		Title: "Whitespace modes are enforced exactly and permitted whitespace is transparent",
 		Plan: func(tier string, seed int64) []run.Job {
 			var jobs []run.Job
-			n, per := 16, 6000
+			n, per := 16, 20000
 			if tier == "thorough" {
 				n, per = 64, 40000
 			}
